@@ -41,8 +41,9 @@ class BaseRequest:
         for err_cls in (err.__class__, except_class):
             out_err = errors_map.get(err_cls)
             if out_err:
-                err = out_err
-                break
+                # the mapped error is a shared object: without a reset every raise
+                # would append its frames to the traceback it already carries
+                raise out_err.with_traceback(None)
         raise err
 
     @staticmethod
